@@ -1327,6 +1327,15 @@ class PyFat(object):
                 self._write_data_to_address(
                     b'\0', sector_size * (rsvd_sec_cnt +
                                           (i + 1) * self._fat_size) - 1)
+        # A FAT12 table does not always fill its sectors, clear the bytes
+        # behind it in every copy as well (the device may contain old data)
+        fat_slack = self._fat_size * sector_size - len(bytes(self))
+        if fat_slack > 0:
+            for i in range(number_of_fats):
+                self._write_data_to_address(
+                    b'\0' * fat_slack,
+                    sector_size * (rsvd_sec_cnt +
+                                   (i + 1) * self._fat_size) - fat_slack)
 
         self.__seek(len(self.bpb_header))
         self.__fp.write(boot_code)
